@@ -352,7 +352,7 @@ class Padding(WidgetDecoration[WrappedWidget], typing.Generic[WrappedWidget]):
                 (width, _ignore) = self._original_widget.pack((maxwidth,), focus=focus)
             else:
                 (width, _ignore) = self._original_widget.pack((), focus=focus)
-                maxcol = width + self.left + self.right
+                maxcol = max(width, self.min_width or 1) + self.left + self.right
 
             return calculate_left_right_padding(
                 maxcol,
